@@ -1,6 +1,6 @@
 (** C04: the scope stack of the model (head = innermost scope). *)
 From Pakhi Require Import Base Float64 Syntax Tables Lexer Interp.
-From Pakhi.Proofs Require Import Assoc.
+From Pakhi.Proofs Require Import Assoc Unfold.
 From Coq Require Import Lia.
 
 (* a declaration is visible at once, in the innermost scope only *)
@@ -111,11 +111,11 @@ Variable code : list fstmt.
 (* reading a name with no visible declaration is a runtime error located at the statement being executed *)
 Lemma eval_undeclared fuel x p m : lookup_var x (m_scopes m) = None ->
   eval code (S fuel) (EVar x p) m = fail_here code ERuntime m.
-Proof. intros H. simpl. rewrite H. reflexivity. Qed.
+Proof. intros H. rewrite eval_S. unfold eval_step. rewrite H. reflexivity. Qed.
 
 Lemma eval_declared fuel x p m v : lookup_var x (m_scopes m) = Some v ->
   eval code (S fuel) (EVar x p) m = Ok (v, m).
-Proof. intros H. simpl. rewrite H. reflexivity. Qed.
+Proof. intros H. rewrite eval_S. unfold eval_step. rewrite H. reflexivity. Qed.
 
 (* a declaration without initialiser holds nil *)
 Lemma interp_declare_nil fuel m x xp p :
@@ -123,7 +123,7 @@ Lemma interp_declare_nil fuel m x xp p :
   exists m', interp code (S fuel) m = Ok m' /\ lookup_var x (m_scopes m') = Some VNil /\ m_pc m' = S (m_pc m) /\
              tl (m_scopes m') = tl (m_scopes m) /\ m_heap m' = m_heap m /\ m_out m' = m_out m.
 Proof.
-  intros Hs Hne. simpl. rewrite Hs.
+  intros Hs Hne. rewrite interp_S. unfold interp_step. rewrite Hs.
   destruct (m_scopes m) as [|s r] eqn:E; [congruence|]. simpl.
   eexists. split; [reflexivity|]. simpl. rewrite alist_get_set_same. auto.
 Qed.
@@ -134,18 +134,18 @@ Lemma interp_assign_undeclared fuel m x xp e p v m1 :
   eval code fuel e m = Ok (v, m1) -> lookup_var x (m_scopes m1) = None ->
   interp code (S fuel) m = fail_here code ERuntime m1.
 Proof.
-  intros Hs He Hl. simpl. rewrite Hs, He. simpl.
+  intros Hs He Hl. rewrite interp_S. unfold interp_step. rewrite Hs, He. cbn [bind].
   apply (assign_undeclared x v) in Hl. rewrite Hl. reflexivity.
 Qed.
 
 (* each loop iteration starts with a fresh body scope, each block opens an empty scope and closes it again *)
 Lemma interp_block_start fuel m p : stmt_at code (m_pc m) = Some (FBlockStart p) ->
   interp code (S fuel) m = Ok (next (set_scopes m ([] :: m_scopes m))).
-Proof. intros Hs. simpl. rewrite Hs. reflexivity. Qed.
+Proof. intros Hs. rewrite interp_S. unfold interp_step. rewrite Hs. reflexivity. Qed.
 
 Lemma interp_block_end fuel m p s r : stmt_at code (m_pc m) = Some (FBlockEnd p) -> m_scopes m = s :: r -> r <> [] ->
   interp code (S fuel) m = Ok (next (set_scopes m r)).
 Proof.
-  intros Hs E Hr. simpl. rewrite Hs, E. destruct r; [congruence|]. reflexivity.
+  intros Hs E Hr. rewrite interp_S. unfold interp_step. rewrite Hs, E. destruct r; [congruence|]. reflexivity.
 Qed.
 End Machine.
